@@ -160,4 +160,70 @@ example : InModule (.expr (.listComp (.yield_ none) [.mk (.name "_") (.name "z")
   ⟨[.pass_], _, [], rfl, Or.inr ⟨_, List.mem_cons_self, LiveIn.inside [] [] _ _ (by simp) List.mem_cons_self
     (LiveIn.inside [] [] _ _ (by simp) List.mem_cons_self (LiveIn.here [.pass_] [] (by simp [Stmt.isDirect])))⟩⟩
 
+/-! ### starred names in the target of a comprehension clause -/
+
+/-- does a comprehension target hold a starred item (at any depth of nested tuple / list patterns)? -/
+def targetHasStar : Expr → Bool
+  | .starred _ => true
+  | .tuple es => goL es
+  | .list es => goL es
+  | _ => false
+where
+  goL : List Expr → Bool
+    | [] => false
+    | e :: es => targetHasStar e || goL es
+
+mutual
+  theorem compTargetNames_star : ∀ (t : Expr), targetHasStar t = true → IsErr (compTargetNames t)
+    | .starred _, _ => ⟨_, rfl⟩
+    | .tuple es, h => by
+        simp only [targetHasStar] at h; simp only [compTargetNames]; exact compTargetNames_go_star es h
+    | .list es, h => by
+        simp only [targetHasStar] at h; simp only [compTargetNames]; exact compTargetNames_go_star es h
+    | .name _, h => by simp [targetHasStar] at h
+    | .const _, h => by simp [targetHasStar] at h
+    | .namedExpr .., h => by simp [targetHasStar] at h
+    | .yield_ _, h => by simp [targetHasStar] at h
+    | .yieldFrom _, h => by simp [targetHasStar] at h
+    | .await _, h => by simp [targetHasStar] at h
+    | .lambda .., h => by simp [targetHasStar] at h
+    | .listComp .., h => by simp [targetHasStar] at h
+    | .setComp .., h => by simp [targetHasStar] at h
+    | .generatorExp .., h => by simp [targetHasStar] at h
+    | .dictComp .., h => by simp [targetHasStar] at h
+    | .joinedStr _, h => by simp [targetHasStar] at h
+    | .formattedValue .., h => by simp [targetHasStar] at h
+    | .set _, h => by simp [targetHasStar] at h
+    | .dict _, h => by simp [targetHasStar] at h
+    | .attribute .., h => by simp [targetHasStar] at h
+    | .subscript .., h => by simp [targetHasStar] at h
+    | .slice .., h => by simp [targetHasStar] at h
+    | .call .., h => by simp [targetHasStar] at h
+    | .binOp .., h => by simp [targetHasStar] at h
+    | .boolOp .., h => by simp [targetHasStar] at h
+    | .unaryOp .., h => by simp [targetHasStar] at h
+    | .compare .., h => by simp [targetHasStar] at h
+    | .ifExp .., h => by simp [targetHasStar] at h
+  theorem compTargetNames_go_star : ∀ (es : List Expr), targetHasStar.goL es = true → IsErr (compTargetNames.go es)
+    | [], h => by simp [targetHasStar.goL] at h
+    | e :: es, h => by
+        simp only [targetHasStar.goL, Bool.or_eq_true] at h
+        simp only [compTargetNames.go]
+        rcases h with h | h
+        · exact isErr_bind_l (compTargetNames_star e h)
+        · exact isErr_bind_r (fun _ => isErr_bind_l (compTargetNames_go_star es h))
+end
+
+/-- **A starred name in the target of a comprehension clause is refused** (one star or several, at any depth of
+    the pattern, in the first clause): the conversion of the comprehension is an error, whatever the namespace -
+    so in particular the two-star targets CPython itself refuses (`[a for *a, *b in rows]`) never come out as an
+    expression. -/
+theorem reject_starred_comprehension_target (n : Nsp) (bound : List String) (elt t i : Expr) (ifs : List Expr) (a : Bool)
+    (gs : List Comp) (h : targetHasStar t = true) :
+    ∃ err, transf n bound (.listComp elt (.mk t i ifs a :: gs)) = .error err := by
+  simp only [transf, compsTargetNames]
+  exact isErr_bind_l (isErr_bind_l (compTargetNames_star t h))
+
+example : targetHasStar (.tuple [.starred (.name "a"), .starred (.name "b")]) = true := by decide
+
 end OlVerif.C08
